@@ -228,3 +228,13 @@ def _canary_free_returns_end():
 CANARIES = [("mod_add wrap table off by one (non power-of-two entries)", _canary_mod_add_wrap),
             ("alloc argument validation admits one identifier too many", _canary_validate_off_by_one),
             ("free returns identifiers from the end pointer", _canary_free_returns_end)]
+
+
+def _callers_items():
+    from transactron.lib import CircularAllocator
+
+    return [("CircularAllocator(3, 2, 2)", lambda: CircularAllocator(3, 2, 2), [("alloc", ["alloc"]), ("free", ["free"])], [("clear", ["clear"])])]
+
+
+from ..excl import install as _install  # noqa: E402
+_install(globals(), _callers_items())
